@@ -69,6 +69,7 @@ type world struct {
 	libConns     []*netsim.Conn
 	libListeners []*recListener
 	lateAccept   atomic.Bool // see recListener.Accept
+	realTime     bool        // the check does not run in a synctest bubble
 }
 
 // recListener records the connections the library accepts.
@@ -253,7 +254,7 @@ func (w *world) selectAsPeer(p *netsim.Peer, sys uint32) error {
 		if f.F.B3 != 0 {
 			return fmt.Errorf("Select.rsp status %d", f.F.B3)
 		}
-		synctest.Wait()
+		w.quiesce()
 		return nil
 	}
 	f, ok := p.WaitFrame(0, func(f e37.Frame) bool { return f.SType == e37.SelectReq }, 5*time.Second)
@@ -263,8 +264,18 @@ func (w *world) selectAsPeer(p *netsim.Peer, sys uint32) error {
 	if err := p.Send(e37.Control(e37.SelectRsp, f.F.Session, 0, 0, f.F.Sys)); err != nil {
 		return err
 	}
-	synctest.Wait()
+	w.quiesce()
 	return nil
+}
+
+// quiesce waits until every goroutine is blocked (bubble) - or, for the few checks that run in real
+// time, a few milliseconds.
+func (w *world) quiesce() {
+	if w.realTime {
+		time.Sleep(5 * time.Millisecond)
+		return
+	}
+	synctest.Wait()
 }
 
 const barrierBase = 0xB0000000
